@@ -34,6 +34,14 @@ def alterations():
             {"name": "silence", "hs": {"drop": True}}]
     out += [{"name": f"hdrflip{b}", "hs": {"hdr_flip": b}, "containment_only": True} for b in range(64)]
     out += [{"name": f"padnibble{n}", "hs": {"pad_nibble": n}, "containment_only": True} for n in (1, 7, 15)]
+    # an incomplete packet first (announcing more / fewer bytes than a reply), then - after the retry - a genuine reply:
+    # the device does prove knowledge of the key, so authentication must succeed
+    for size in ("0060", "0100", "0030", "0040"):
+        for n in (0, 10, 64):
+            if n >= int(size, 16) + 2:
+                continue            # that would be a complete (wrong-length) packet, not a partial one
+            out.append({"name": f"partial{size}_{n}_then_genuine", "expect_success": True,
+                        "hs_list": [{"raw": "8370" + size + "2001" + "ab" * n}, {}, {}]})
     return out
 
 
@@ -49,6 +57,10 @@ def run(plan):
     hs = alt.get("hs")
     scenario = plan["scenario"]
     genuine = hs is None
+    if alt.get("expect_success"):
+        genuine = True
+        if scenario != "fresh":
+            scenario = "fresh"
     containment_only = alt.get("containment_only", False)
 
     async def main(w):
@@ -65,6 +77,10 @@ def run(plan):
             if stored != (s.token.hex(), s.key.hex()):
                 res.fail("stored credentials differ from the supplied ones after success", repr(stored))
                 return
+            if plan.get("expired"):
+                # the 12 h authentication lifetime elapses before the failed re-authentication
+                w.clock.jump(12 * 3600 + 61)
+                w.fire("clock_jump_auth")
             first_log = len(dev.log)
             # second pair: the device does not know it and answers under its own key
             tok2 = bytes(b ^ 0xA5 for b in s.token)
@@ -84,6 +100,8 @@ def run(plan):
             op = {"op": "auth"}
             if hs:
                 op["hs"] = [dict(hs) for _ in range(3)]
+            if alt.get("hs_list"):
+                op["hs"] = [dict(x) for x in alt["hs_list"]]
             o = await s.do(op)
             supplied = s.token
         # ---- outcome
@@ -151,6 +169,11 @@ def run(plan):
                 return
         else:
             # stored scenario: the stored pair must still work without user intervention
+            if plan.get("expired"):
+                first = next((e for e in evs2 if e["kind"] in ("hs_req", "enc_req", "enc_bad")), None)
+                if first is not None and first["kind"] != "hs_req":
+                    res.fail("data sent under an expired session after a failed re-authentication", repr(kinds[:6]))
+                    return
             for e in evs2:
                 if e["kind"] == "hs_req" and e["token"] != s.token:
                     res.fail("re-handshake used a token other than the stored one", e["token"].hex()[:32])
@@ -173,7 +196,7 @@ def run(plan):
         res.fail("exception escaped data_received: " + w.net.protocol_exceptions[0][1], repr(w.net.protocol_exceptions[0]))
     res.take(w)
     res.add_fired(dev.fired)
-    res.key = (plan["config"].get("key"), plan["config"].get("cred_form"), scenario, alt["name"])
+    res.key = (plan["config"].get("key"), plan["config"].get("cred_form"), scenario, alt["name"], bool(plan.get("expired")))
     res.nontrivial = True
     return res
 
@@ -186,13 +209,15 @@ def space(tier):
         scenario = ["fresh", "stored"][(j // len(ALTS)) % 2]
         return {"config": {"version": 3, "cred_form": ["hex", "bytes"][(j // (2 * len(ALTS))) % 2],
                            "token": rand_bytes(rng, 64).hex(), "key": rand_bytes(rng, 32).hex(),
-                           "device_id": rand_id(rng)}, "scenario": scenario, "alt": alt}
-    sp.add("enumerated", len(ALTS) * 2 * (2 if tier == "quick" else 8), enum, exhaustive=True)
+                           "device_id": rand_id(rng)}, "scenario": scenario, "alt": alt,
+                "expired": scenario == "stored" and (j // (4 * len(ALTS))) % 2 == 1}
+    sp.add("enumerated", len(ALTS) * 2 * (4 if tier == "quick" else 8), enum, exhaustive=True)
 
     def rnd(j, rng):
         alt = rng.choice(ALTS) if rng.random() < 0.9 else {"name": "genuine"}
         return {"config": {"version": 3, "cred_form": rng.choice(["hex", "bytes"]),
                            "token": rand_bytes(rng, 64).hex(), "key": rand_bytes(rng, 32).hex(),
-                           "device_id": rand_id(rng)}, "scenario": rng.choice(["fresh", "stored"]), "alt": alt}
+                           "device_id": rand_id(rng)}, "scenario": rng.choice(["fresh", "stored"]), "alt": alt,
+                "expired": rng.random() < 0.4}
     sp.add("random_keys", 8000 if tier == "quick" else 150_000, rnd)
     return sp
